@@ -331,10 +331,12 @@ type c15Mailbox struct {
 	closeRet    atomic.Bool
 	late        atomic.Int64
 	lateSubmits atomic.Int64
+	afterClose  chan struct{} // closed by the closing goroutine right after its Close() returned
+	afterOnce   sync.Once
 }
 
 func newC15Mailbox(r *c15Run) *c15Mailbox {
-	m := &c15Mailbox{r: r, gate: make(chan struct{})}
+	m := &c15Mailbox{r: r, gate: make(chan struct{}), afterClose: make(chan struct{})}
 	if r.comp == "handler" {
 		m.h = fpgo.Handler.NewByCh(make(chan func(), r.par["cap"]))
 	} else {
@@ -348,8 +350,16 @@ func (m *c15Mailbox) callback(id int, submittedAfterClose bool) {
 	if submittedAfterClose {
 		m.late.Add(1)
 	}
-	if id >= 100 {
+	switch {
+	case id >= 100 && id < 300:
 		<-m.gate
+	case id >= 300 && id < 400:
+		// the callback shuts down the handler/actor it runs on (one closing goroutine: only if nobody closed yet)
+		if m.closeCalled.CompareAndSwap(false, true) {
+			m.close()
+		}
+	case id >= 400 && id < 500:
+		<-m.afterClose // something the closer does only after its Close() has returned
 	}
 }
 
@@ -377,6 +387,7 @@ func (m *c15Mailbox) close() {
 		m.a.Close()
 	}
 	m.closeRet.Store(true)
+	m.afterOnce.Do(func() { close(m.afterClose) })
 }
 
 func (m *c15Mailbox) Op(_ *c15Thread, op string) func() string {
@@ -393,6 +404,8 @@ func (m *c15Mailbox) Op(_ *c15Thread, op string) func() string {
 		}
 		m.closeCalled.Store(true)
 		return func() string { m.close(); return "ok" }
+	case op == "waitclosed":
+		return func() string { <-m.afterClose; return "ok" }
 	}
 	return nil
 }
